@@ -13,7 +13,7 @@ import networkx as nx
 from ..model import src
 from ..report import Report, key_of
 from ..types import Ctx
-from ..terms import dag_nodes
+from ..terms import dag_nodes, pretty
 from .common import TRUSTED_BASE, cfg_nodes_for, inl, normal_succ, owner_of, where, src_resolved
 
 
@@ -118,6 +118,10 @@ def run(A, R: Report, thorough: bool):
             if len(c.args) > 1 and isinstance(c.args[1], ast.Constant):
                 mode = c.args[1].value
             path_ok = bool(c.args) and A.sym.expr_term(c.args[0], Ctx(f, ('inst', ci))) == A.sym.func_term(ci.lookup('log_path'), ('inst', ci))
+            delayed = any(kw.arg == 'delay' and not (isinstance(kw.value, ast.Constant) and kw.value.value in (False, None, 0)) for kw in c.keywords) or (len(c.args) > 3)
+            R.check(not delayed, 'R18.3', f'{ci.short}.get_log_handler: opened at once', key_of('delay', delayed), 'the file is opened (truncated) when the handler is created',
+                    'FileHandler(delay=True) opens - and truncates - the file only when the first record is emitted: a run that logs nothing to this handler (raised log level, logging.disable) leaves the previous run\'s log in place next to the new run info',
+                    where=where(f, c))
             R.check(mode == 'w' and path_ok, 'R18.3', f'{ci.short}.get_log_handler', key_of('mode', mode, path_ok), "mode='w' on log_path",
                     f'log handler mode is {mode!r} (default is append) or does not target log_path: the log would keep messages of earlier runs', where=where(f, c))
     R.require(n_h >= 1, 'anchor: no get_log_handler implementation found')
@@ -130,7 +134,7 @@ def run(A, R: Report, thorough: bool):
         # symbolic value of the record: it must be built afresh on every call; a copy of something kept on the task shares the nested `log` list between runs
         A.sym._field_stores = []
         A.sym.func_term(finit, ('inst', task))
-        from ..terms import normalise, pretty
+        from ..terms import normalise
         st = [normalise(v) for c, t, v in A.sym._field_stores if t.attr == '_run_info' and isinstance(t.value, ast.Name) and t.value.id == 'self']
         kept = [x for v in st for x in dag_nodes(v) if x[0] == 'attr' and x[1] == ('self',) and x[2] not in ('slugname', 'parameters', 'params', '_config', '__class__')]
         if st and kept:
@@ -182,6 +186,23 @@ def run(A, R: Report, thorough: bool):
     R.require(fsave is not None, 'anchor: Task.save_to_run_info missing')
     appends = [n for n in A.typer.own_nodes(fsave) if isinstance(n, ast.Call) and isinstance(n.func, ast.Attribute) and n.func.attr == 'append' and "_run_info['log']" in src_resolved(A, fsave, n.func.value)]
     R.check(bool(appends), 'R18.4', 'Task.save_to_run_info', key_of('append'), 'records appended in order', 'save_to_run_info does not append to the run-info log', where=where(fsave))
+    if appends:
+        cfgs_ = A.cfg(fsave)
+        an = [cn.id for a_ in appends for cn in cfg_nodes_for(cfgs_, a_)]
+        skip = cfgs_.find_path([cfgs_.entry.id], [cfgs_.exit.id], avoid=an, no_exc_from=list(cfgs_.nodes))
+        R.check(skip is None, 'R18.4', 'Task.save_to_run_info: every record', key_of('append-unconditional', skip is None), 'every call appends its record',
+                'some records are dropped before they reach the run info (a path returns without appending): falsy records such as 0, {} or an empty statistics dict are missing from the record of the run',
+                witness=cfgs_.describe_path(skip) if skip else None, where=where(fsave))
+    # the logger a task writes to (and attaches its run handler to) belongs to that task alone: named by the full name
+    tinit = task.lookup('__init__')
+    gl = [n for n in A.typer.own_nodes(tinit) if isinstance(n, ast.Call) and src(n.func).endswith('getLogger') and n.args]
+    for c in gl:
+        tt = A.sym.terms_at(tinit, ('inst', task), [c.args[0]]).get(id(c.args[0]), [])
+        txt = ' '.join(pretty(t_) for t_ in tt)
+        by_full = 'fullname' in txt or 'id(self)' in txt
+        R.check(by_full, 'R18.3', 'Task.__init__: logger name', key_of('logger-name', by_full), 'logger named by the task\'s full name (namespace included)',
+                f'the task logger is named `{txt[:80]}`: tasks with the same group and name in different namespaces share one logger, so the run handler of one also receives the messages of the other while both run (a task that pulls its input inside run())',
+                where=where(tinit, c))
 
 
     # ---- R18.6 every data class that keeps a log also gets its run record written
